@@ -202,6 +202,23 @@ def sc_close_queued(rng, cid, store):
     return dict(id=cid, conf=conf, steps=steps, scenario="close-with-queued-request")
 
 
+def sc_referrers_during_collection(rng, cid, store):
+    """an artifact push (manifest with a subject) is in flight - it holds the repository and will need the referrers mutex - while
+    the ticker's collection waits for it and referrers listings of the same repository arrive: all of them come to an end"""
+    conf = mkconf(store=store, freq_ms=rng.choice([3, 5, 10]))
+    steps = base_steps(("dst",))
+    subj = manifest(0)
+    art = image_manifest(desc(MT_EMPTY, b"{}"), [desc(MT_LAYER, b"layer-shared")], subject=desc(MT_OCI_M, subj),
+                         artifact_type="application/vnd.example.sig", annotations={"n": str(rng.randrange(1000))})
+    put = manifest_put("dst", dg("sha256", art), art, ctype=MT_OCI_M)
+    listing = [referrers("dst", dg("sha256", subj), None)["impl"] for _ in range(rng.randrange(1, 3))]
+    mids = [special("sleep", secs=0.04), dict(kind="async", impl=dict(op="async", par=[listing]), model="(skip)"), special("sleep", secs=0.05)]
+    steps.append(split(put, len(art) // 2, mids))
+    steps.append(dict(kind="join", impl=dict(op="join", secs=3.0), model="(skip)", must_complete="the referrers listings"))
+    steps += [referrers("dst", dg("sha256", subj), None), tag_list("dst"), special("close")]
+    return dict(id=cid, conf=conf, steps=steps, scenario="referrers-during-collection")
+
+
 def sc_cancelled(rng, cid, store):
     """requests whose client went away before they were served (context already cancelled), to an existing repository, while
     collections run: they may be refused, but the next collection, later requests and Close complete"""
@@ -255,7 +272,7 @@ def run(ctx):
     cases = []
     for _ in range(reps):
         for store in ("mem", "dir"):
-            for f, n in ((sc_waiter, 4), (sc_close_ticker, 3), (sc_uploads, 4), (sc_mixed, 5), (sc_gc_cycle, 2), (sc_self_mount, 2), (sc_unknown_session, 4), (sc_close_queued, 3), (sc_cancelled, 3)):
+            for f, n in ((sc_waiter, 4), (sc_close_ticker, 3), (sc_uploads, 4), (sc_mixed, 5), (sc_gc_cycle, 2), (sc_self_mount, 2), (sc_unknown_session, 4), (sc_close_queued, 3), (sc_cancelled, 3), (sc_referrers_during_collection, 3)):
                 for _ in range(n):
                     if f is sc_gc_cycle and store != "dir":
                         continue
